@@ -1814,10 +1814,13 @@ class SpaceUpdater(SharedSpaceOperations):
             nodes_removed.append(child)
             self._remove_hook(self._graph, child)
 
-        for _, v in nx.edge_bfs(self.manager._graph, node):
-            self._instructions.append(
-                Instruction(self._update_derived_space, (v,))
-            )
+        # Update the sub spaces of all the removed spaces but themselves
+        for n in nodes_removed:
+            for _, v in nx.edge_bfs(self.manager._graph, n):
+                if v not in nodes_removed:
+                    self._instructions.append(
+                        Instruction(self._update_derived_space, (v,))
+                    )
 
         self._graph.remove_nodes_from(nodes_removed)
 
